@@ -4,21 +4,22 @@
    specification-side reading: Tree/MergeSpec.v idents_of / refs_of; StOf: Tree/LoadRefineIndex.v (both read-only).
    Proofs: Xml/LoadRecords.v, Xml/LoadRecordsRegular.v, Xml/LoadRecordsTree.v, Xml/LoadRecordsExamples.v.
 
-   (a) identifiables.  The loader makes an entry (path ++ "/" ++ text, position of the PARENT element) at every SHORT-NAME
-   sub-element, at ANY child position, whose first content item is a text; the siblings after it are parsed under the
-   extended path, the children before it were parsed under the parent's path.  A SHORT-NAME without text makes no entry
-   and leaves the path (so its element is not identifiable and its descendants are recorded under the parent's path - on
-   both sides).  This is the function pidents of the returned tree: C04_load_records_identifiables_general, no
-   hypothesis.  It coincides with the specification-side list idents_of (pre-order; an element is named iff its FIRST
-   content item is a SHORT-NAME with text; path = names of the named ancestors) exactly under three conditions on the
-   nodes of the tree; two of them hold for every loaded tree (C04_load_sn_leaf, C05_load_ref_plain), the third is
-       LateFreeP : no SHORT-NAME with text at a child position >= 1   (decidable: late_freeb)
-   and it CAN fail for a strictly loaded file (C04_records_example_late: doc_late - the loader does not enforce the position of
-   SHORT-NAME; this is the class late / repeated SHORT-NAME of C04 / C13): then the loader's list has the entry of the late
-   name and records the earlier descendants under the parent's path, which idents_of does not.
+   (a) identifiables.  The loader makes an entry (path ++ "/" ++ text, position of the PARENT element) at a SHORT-NAME
+   sub-element that is the FIRST content item and whose first content item is a text; the following siblings are parsed
+   under the extended path.  A SHORT-NAME without text makes no entry and leaves the path (so its element is not
+   identifiable and its descendants are recorded under the parent's path - on both sides).  This is the function pidents
+   of the returned tree: C04_load_records_identifiables_general, no hypothesis.  It coincides with the specification-side
+   list idents_of (pre-order; an element is named iff its FIRST content item is a SHORT-NAME with text; path = names of
+   the named ancestors) for every loaded tree, both modes: C04_load_records_identifiables_all.
+   HISTORY: before the fix of the late SHORT-NAME defect (parser.rs made the entry at a SHORT-NAME at ANY child position,
+   so a strictly accepted file could index /Pkg for an element whose item_name() is None) the coincidence needed
+       LateFreeP : no SHORT-NAME with text at a child position >= 1   (decidable: late_freeb);
+   the statements with that hypothesis (C04_load_records_identifiables, C04_C05_load_StOf, C04_idents_agree) are kept, they
+   are now instances.  A late SHORT-NAME is now an ordinary sub-element: the element counts as having no SHORT-NAME
+   (RequiredSubelementMissing: error in strict mode, warning in lenient mode), C04_records_example_late_fixed.
    (b) references: one entry (text, position) per text item of an element of the reference type = refs_of, for every
    loaded tree (C05_load_records_references), no condition on the tree.
-   (c) C04_C05_load_StOf: StOf T st t for the final state of `load`, under LateFreeP.
+   (c) C04_C05_load_StOf_all: StOf T st t for the final state of `load`, no condition on the tree.
    Table hypotheses: tables_ok (part of loader_hyps), sn_charsb, ref_charsb (SHORT-NAME elements / the reference type
    have content mode Characters) - all three true for the regenerated tables by evaluation (C04_real_record_tables). *)
 From AV Require Import Base.Bytes Base.Outcome Hash.HashModel Spec.SpecTypes Spec.SpecOps Spec.SpecReal Xml.Lexer Xml.Parser
@@ -39,7 +40,15 @@ Theorem C04_load_records_identifiables_general :
 Proof. exact load_records. Qed.
 
 (* [U] (a) the recorded identifiables are the identifiable elements of the tree with their Autosar paths, in document
-   order, when no SHORT-NAME with text comes late *)
+   order - every loaded tree *)
+Theorem C04_load_records_identifiables_all :
+  forall (T : tables) (tab_el tab_at tab_en : nametab) (check_fn : N -> list N -> res bool)
+         (float_parse : list N -> option N) (s : bool) (bs : list N) (t : etree) (st : pstate),
+  tables_ok T = true -> sn_charsb T = true ->
+  load s T tab_el tab_at tab_en check_fn float_parse bs = Val (Ret t st) -> p_idents st = rev (idents_of T [] [] t).
+Proof. exact load_idents_of_all. Qed.
+
+(* [U] the statement as it was before the fix (LateFreeP is no longer needed) *)
 Theorem C04_load_records_identifiables :
   forall (T : tables) (tab_el tab_at tab_en : nametab) (check_fn : N -> list N -> res bool)
          (float_parse : list N -> option N) (s : bool) (bs : list N) (t : etree) (st : pstate),
@@ -56,7 +65,15 @@ Theorem C05_load_records_references :
   load s T tab_el tab_at tab_en check_fn float_parse bs = Val (Ret t st) -> p_refs st = rev (refs_of T [] t).
 Proof. exact load_refs_of. Qed.
 
-(* [U] (c) in the form of C09_merge_union_total's hypothesis *)
+(* [U] (c) in the form of C09_merge_union_total's hypothesis - every loaded tree *)
+Theorem C04_C05_load_StOf_all :
+  forall (T : tables) (tab_el tab_at tab_en : nametab) (check_fn : N -> list N -> res bool)
+         (float_parse : list N -> option N) (s : bool) (bs : list N) (t : etree) (st : pstate),
+  tables_ok T = true -> sn_charsb T = true -> ref_charsb T = true ->
+  load s T tab_el tab_at tab_en check_fn float_parse bs = Val (Ret t st) -> StOf T st t.
+Proof. exact load_StOf_all. Qed.
+
+(* [U] the statement as it was before the fix *)
 Theorem C04_C05_load_StOf :
   forall (T : tables) (tab_el tab_at tab_en : nametab) (check_fn : N -> list N -> res bool)
          (float_parse : list N -> option N) (s : bool) (bs : list N) (t : etree) (st : pstate),
@@ -87,6 +104,11 @@ Theorem C04_idents_agree :
   forall path pos, pidents T path pos t = idents_of T path pos t.
 Proof. exact idents_agree. Qed.
 
+Theorem C04_idents_agree_all :
+  forall (T : tables) (t : etree), AllNodes (SnLeafP T) t ->
+  forall path pos, pidents T path pos t = idents_of T path pos t.
+Proof. exact idents_agree_all. Qed.
+
 Theorem C05_refs_agree :
   forall (T : tables) (t : etree), AllNodes (RefPlainP T) t -> forall pos, prefs T pos t = refs_of T pos t.
 Proof. exact refs_agree. Qed.
@@ -100,31 +122,36 @@ Theorem C04_real_record_tables : tables_ok RT = true /\ sn_charsb RT = true /\ r
 Proof. exact (conj tables_ok_real (conj real_sn_chars real_ref_chars)). Qed.
 
 (* [U over inputs, F tables] the real loader model: *)
+Theorem C04_C05_real_load_StOf_all :
+  forall (s : bool) (bs : list N) (t : etree) (st : pstate), LOAD s bs = Val (Ret t st) -> StOf RT st t.
+Proof. exact real_load_StOf_all. Qed.
+
 Theorem C04_C05_real_load_StOf :
   forall (s : bool) (bs : list N) (t : etree) (st : pstate),
   LOAD s bs = Val (Ret t st) -> late_freeb RT t = true -> StOf RT st t.
 Proof. exact real_load_StOf. Qed.
 
 (* [F] recorded d = (late_freeb, identifiables oldest first, idents_of, references oldest first, refs_of) on the real
-   tables: a regular document (agree); a late SHORT-NAME accepted STRICTLY (differ: /Sys then /Pkg recorded, idents_of has
-   /Sys only); <SHORT-NAME/> (agree: no entry, path stays); a repeated SHORT-NAME (strict rejects; lenient records /A, /A/B
-   and /A/B/Sys where idents_of has /A and /A/Sys) *)
+   tables: a regular document; the late SHORT-NAME document (regression input of the fixed defect): strict loading fails
+   with RequiredSubelementMissing, lenient loading warns and both readings have /Sys only; <SHORT-NAME/> (no entry, path
+   stays); a repeated SHORT-NAME (strict rejects; lenient: /A and /A/Sys on both sides) *)
 Theorem C04_records_example_regular :
   recorded true doc_named =
   Some (true,
         [(BS "/Pkg", [0; 0]%nat); (BS "/Pkg/Sys", [0; 0; 1; 0]%nat)], [(BS "/Pkg", [0; 0]%nat); (BS "/Pkg/Sys", [0; 0; 1; 0]%nat)],
         [(BS "/Pkg/E", [0; 0; 1; 0; 1; 0; 0]%nat)], [(BS "/Pkg/E", [0; 0; 1; 0; 1; 0; 0]%nat)]).
 Proof. exact rec_named. Qed.
-Theorem C04_records_example_late :
-  recorded true doc_late =
-  Some (false, [(BS "/Sys", [0; 0; 0; 0]%nat); (BS "/Pkg", [0; 0]%nat)], [(BS "/Sys", [0; 0; 0; 0]%nat)], [], []).
-Proof. exact rec_late. Qed.
+Theorem C04_records_example_late_fixed :
+  strict_error doc_late = Some RequiredSubelementMissing /\
+  lenient_warnings doc_late = Some [RequiredSubelementMissing] /\
+  recorded false doc_late = Some (false, [(BS "/Sys", [0; 0; 0; 0]%nat)], [(BS "/Sys", [0; 0; 0; 0]%nat)], [], []).
+Proof. exact rec_late_fixed. Qed.
 Theorem C04_records_example_nameless :
   recorded true doc_nameless = Some (true, [(BS "/Sys", [0; 0; 1; 0]%nat)], [(BS "/Sys", [0; 0; 1; 0]%nat)], [], []).
 Proof. exact rec_nameless. Qed.
-Theorem C04_records_example_twice :
+Theorem C04_records_example_twice_fixed :
   recorded true doc_twice = None /\
   recorded false doc_twice =
-  Some (false, [(BS "/A", [0; 0]%nat); (BS "/A/B", [0; 0]%nat); (BS "/A/B/Sys", [0; 0; 2; 0]%nat)],
+  Some (false, [(BS "/A", [0; 0]%nat); (BS "/A/Sys", [0; 0; 2; 0]%nat)],
                [(BS "/A", [0; 0]%nat); (BS "/A/Sys", [0; 0; 2; 0]%nat)], [], []).
-Proof. exact rec_twice. Qed.
+Proof. exact rec_twice_fixed. Qed.
